@@ -286,12 +286,16 @@ type vfGateCfg struct {
 	Policy string // --tls-client-auth-policy
 	Cert   bool
 	Auth   bool
+	Auth2  bool // two --auth-http-address entries, one of which refuses connections
 }
 
 func (c vfGateCfg) Line() string {
 	a := 0
 	if c.Auth {
 		a = 1
+		if c.Auth2 {
+			a = 2
+		}
 	}
 	return fmt.Sprintf("cfg %d %s %s %d %d %d", c.TLSReq, vfGateHexS(c.Policy), vfGateB(c.Cert), a, vfGateMaxBody, vfGateMaxMsg)
 }
@@ -358,6 +362,14 @@ func vfGateStart(cfg vfGateCfg, certs string, stub *vfGateStub, dataDir string) 
 	}
 	if cfg.Auth {
 		opts.AuthHTTPAddresses = []string{strings.TrimPrefix(stub.srv.URL, "http://")}
+		if cfg.Auth2 {
+			// a port nobody listens on: QueryAnyAuthd must fall through to the live server whatever
+			// the (random) order in which it tries them
+			l, _ := net.Listen("tcp", "127.0.0.1:0")
+			dead := l.Addr().String()
+			l.Close()
+			opts.AuthHTTPAddresses = append(opts.AuthHTTPAddresses, dead)
+		}
 	}
 	n, err := New(opts)
 	if err != nil {
@@ -1344,6 +1356,27 @@ func (in *vfGateInst) httpCheck() {
 			TLSClientConfig: &tls.Config{InsecureSkipVerify: true, Certificates: []tls.Certificate{cert}}}}
 		code := do(secure, "GET", "https://"+in.nsqd.RealHTTPSAddr().String()+"/ping")
 		in.out.Case("http 1", show(code))
+		// the HTTPS listener shares the TLS configuration: the client-certificate policy applies to it too
+		for _, kind := range []string{"nocert", "untrusted", "trusted"} {
+			tc := &tls.Config{InsecureSkipVerify: true}
+			cn := ""
+			switch kind {
+			case "untrusted":
+				cert, _ := tls.LoadX509KeyPair(filepath.Join(in.certs, "cert.pem"), filepath.Join(in.certs, "key.pem"))
+				tc.Certificates = []tls.Certificate{cert}
+				cn = ":" + vfGateHexS("test.local")
+			case "trusted":
+				tc.Certificates = []tls.Certificate{cert}
+				cn = ":" + vfGateHexS("nsq.io")
+			}
+			cl := &http.Client{Timeout: 5 * time.Second, Transport: &http.Transport{DisableKeepAlives: true, TLSClientConfig: tc}}
+			code := do(cl, "GET", "https://"+in.nsqd.RealHTTPSAddr().String()+"/ping")
+			res := show(code)
+			if code == -1 {
+				res = "hsfail"
+			}
+			in.out.Case("https "+kind+cn, res)
+		}
 	}
 	in.out.hist["http-checks"]++
 }
@@ -1358,6 +1391,8 @@ func vfGateConfigs(thorough bool) []vfGateCfg {
 		}
 		out = append(out, vfGateCfg{TLSReq: 0, Policy: "", Cert: false, Auth: auth})
 	}
+	out = append(out, vfGateCfg{TLSReq: 0, Policy: "", Cert: true, Auth: true, Auth2: true},
+		vfGateCfg{TLSReq: 2, Policy: "require", Cert: true, Auth: true, Auth2: true})
 	// configurations New() must refuse
 	out = append(out, vfGateCfg{TLSReq: 2, Policy: "", Cert: false, Auth: true},
 		vfGateCfg{TLSReq: 1, Policy: "", Cert: false, Auth: false},
@@ -1740,6 +1775,7 @@ func TestVerifGateReplay(t *testing.T) {
 				cfg.Cert = w[3] == "1"
 				fmt.Sscanf(w[4], "%d", &a)
 				cfg.Auth = a != 0
+				cfg.Auth2 = a == 2
 				stub = vfGateNewStub()
 				dir, _ := os.MkdirTemp(os.Getenv("VERIF_OUT"), "gate-replay-")
 				defer os.RemoveAll(dir)
